@@ -76,8 +76,12 @@ Applied(d, before) ==
             ELSE {before, [kind |-> "reg", ops |-> old \cup GoodOps(d)]}
 
 \* the contents the statements permit after the delivery
+\* the address already holds a record of ANOTHER family (a scratchpad and the transactions of one owner share
+\* an address, and so does a chunk whose bytes are that owner's public key): a stored scratchpad stays a
+\* scratchpad, a stored transaction set only grows, immutable data stays -- such a delivery changes nothing
+CrossKind(d, before) == Held(before) /\ before.kind # Base(d.kind)
 Allowed(d, before) ==
-    IF Unparseable(d) \/ ~d.keyOk \/ d.path = "kadput" \/ ~Entitled(d, before)
+    IF Unparseable(d) \/ ~d.keyOk \/ d.path = "kadput" \/ ~Entitled(d, before) \/ CrossKind(d, before)
     THEN {before}
     ELSE Applied(d, before)
 
@@ -103,6 +107,8 @@ C03_UnpaidOnlyUpdates(x) ==
         /\ x.gained = {}
         /\ (x.d.kind \in {"Chunk", "Transaction"} => IsErr(x.res) /\ x.afterD = x.beforeD)
         /\ (~Held(x.beforeD) => IsErr(x.res) /\ x.afterD = x.beforeD)
+        \* replacing a held record of another family is not an update of it
+        /\ (Held(x.beforeD) /\ x.beforeD.kind # Base(x.d.kind) => IsErr(x.res) /\ x.afterD = x.beforeD)
 
 \* C04 -------------------------------------------------------------------
 \* "the record is stored only under the key its content determines"
